@@ -272,6 +272,11 @@ func ValueOf(el entities.InfoElementWithValue) (ref.Value, ref.Type, error) {
 // SameValue compares two reference values of type t (nil and empty byte strings are the
 // same value; numeric values compare at the type's width).
 func SameValue(t ref.Type, a, b ref.Value) bool {
+	if t == ref.TIPv4 || t == ref.TIPv6 {
+		// a is what was observed (it must have the field's own width), b what the application
+		// held (4-byte and IPv4-mapped 16-byte forms are the same address)
+		b = ref.Value{B: ref.CanonIP(t, b.B)}
+	}
 	if t.IsBytes() {
 		if len(a.B) != len(b.B) {
 			return false
